@@ -143,6 +143,11 @@ type ReplayFile struct {
 	Property string          `json:"property"` // registry id, e.g. "C07" or "C10.strings"
 	Message  string          `json:"message,omitempty"`
 	Case     json.RawMessage `json:"case"`
+	// For failures that depend on what the process did before (state kept between calls): the first
+	// failing case of the shard process (Case is the one rapid shrank it to) and the cases that ran
+	// before it, oldest first. Replay tries Case alone, then History followed by First.
+	First   json.RawMessage `json:"first,omitempty"`
+	History []Sample        `json:"history,omitempty"`
 }
 
 // Replay runs one saved case through its check function, with no library in between.
@@ -160,6 +165,20 @@ func Replay(path string) (*Rec, *ReplayFile, error) {
 		return nil, &rf, fmt.Errorf("%s: unknown property %q", path, rf.Property)
 	}
 	rec, err := fn(rf.Case)
+	if err != nil || rec.Failed() || len(rf.History) == 0 || len(rf.First) == 0 {
+		return rec, &rf, err
+	}
+	// the case alone passes: run what the process ran before it, then the first failing case
+	for _, h := range rf.History {
+		if hf, ok := registry[h.Check]; ok {
+			_, _ = hf(h.Case)
+		}
+	}
+	rec2, err := fn(rf.First)
+	if err == nil && rec2.Failed() {
+		rec2.fail += fmt.Sprintf(" [the case passes in a fresh process and fails after the %d cases that preceded it in its shard: the result depends on earlier calls]", len(rf.History))
+		return rec2, &rf, nil
+	}
 	return rec, &rf, err
 }
 
@@ -175,6 +194,43 @@ type Violation struct {
 	Check   string          `json:"check"`
 	Message string          `json:"message"`
 	Case    json.RawMessage `json:"case"`
+	First   json.RawMessage `json:"first,omitempty"`   // the first failing case of the process (Case: rapid's last, i.e. shrunk, one)
+	History []Sample        `json:"history,omitempty"` // the cases that ran before First in this process, oldest first (bounded)
+}
+
+// recent is a ring of the cases this process has run (values, marshalled only when a failure needs them).
+const recentMax = 4096
+
+type recentCase struct {
+	id string
+	c  interface{}
+}
+
+var recent [recentMax]recentCase
+var recentN int
+
+func historyBefore() []Sample {
+	n := recentN - 1 // the newest entry is the failing case itself
+	k := n
+	if k > recentMax-1 {
+		k = recentMax - 1
+	}
+	var out []Sample
+	size := 0
+	for i := n - k; i < n; i++ {
+		e := recent[i%recentMax]
+		raw, err := json.Marshal(e.c)
+		if err != nil {
+			continue
+		}
+		out = append(out, Sample{Check: e.id, Case: raw})
+		size += len(raw)
+	}
+	for size > 4<<20 && len(out) > 0 { // keep replay files small: drop the oldest
+		size -= len(out[0].Case)
+		out = out[1:]
+	}
+	return out
 }
 
 // Stats is what one shard process reports to the driver.
@@ -219,10 +275,19 @@ func isPow2(n int64) bool { return n&(n-1) == 0 }
 func Account(id string, c interface{}, r *Rec) bool {
 	mu.Lock()
 	defer mu.Unlock()
+	recent[recentN%recentMax] = recentCase{id, c}
+	recentN++
 	if r.Failed() {
 		raw, _ := json.Marshal(c)
-		// every failing run overwrites the candidate; rapid's last failing run is the minimal one
-		stats.Violation = &Violation{Check: id, Message: r.fail, Case: raw}
+		// every failing run overwrites the candidate; rapid's last failing run is the minimal one.
+		// The first failing case and what ran before it are kept beside it.
+		v := &Violation{Check: id, Message: r.fail, Case: raw}
+		if stats.Violation != nil && frozen {
+			v.First, v.History = stats.Violation.First, stats.Violation.History
+		} else {
+			v.First, v.History = raw, historyBefore()
+		}
+		stats.Violation = v
 		frozen = true
 		return true
 	}
